@@ -20,7 +20,8 @@ import tempfile
 import time
 
 VERIF = os.path.dirname(os.path.abspath(__file__))
-BUILD = os.path.join(VERIF, ".build")
+BUILD = os.environ.get("VERIF_BUILD", os.path.join(VERIF, ".build"))
+OUTDIR = os.environ.get("VERIF_OUTDIR", VERIF)  # where evidence/ and replays/ are written
 SIM = os.path.join(VERIF, "sim")
 REPO = os.environ.get("VERIF_REPO", "/repo")
 GO = "go1.26.8"
@@ -70,7 +71,10 @@ def build(race):
         raise SystemExit(2)
     ovdir = tempfile.mkdtemp(prefix="ov-", dir=BUILD)
     try:
-        r = run([inst, "-src", os.path.join(REPO, "larking"), "-out", ovdir], capture_output=True, text=True)
+        args = [inst, "-src", os.path.join(REPO, "larking"), "-out", ovdir]
+        if os.path.realpath(REPO) != "/repo":
+            args += ["-as", "/repo/larking"]  # a scratch copy stands in for /repo through the overlay
+        r = run(args, capture_output=True, text=True)
         if r.returncode != 0:
             log("instrumenter failed:\n" + r.stdout + r.stderr)
             raise SystemExit(2)
@@ -355,11 +359,11 @@ def replay_file(binaries, path):
 
 
 def write_evidence(prop, tier, seed, level, cov, wall, nviol, assumptions):
-    os.makedirs(os.path.join(VERIF, "evidence"), exist_ok=True)
+    os.makedirs(os.path.join(OUTDIR, "evidence"), exist_ok=True)
     ev = dict(property_id=prop, tier=tier, seed=seed, level=level, coverage=cov, assumptions=assumptions, wall_s=round(wall, 2), violations=nviol)
-    tmp = os.path.join(VERIF, "evidence", prop + ".json.tmp")
+    tmp = os.path.join(OUTDIR, "evidence", prop + ".json.tmp")
     json.dump(ev, open(tmp, "w"), indent=1, sort_keys=True)
-    os.replace(tmp, os.path.join(VERIF, "evidence", prop + ".json"))
+    os.replace(tmp, os.path.join(OUTDIR, "evidence", prop + ".json"))
 
 
 ASSUMPTIONS = {
@@ -413,6 +417,7 @@ def check(prop, tier, seed):
 
     trouble = [t for bb in batches for t in bb.trouble]
     violations = [v for bb in batches for v in bb.violations]
+    log("[%s] batches done at %.1fs: %d violations raw" % (prop, time.time() - t0, len(violations)))
 
     # aggregate
     runs = steps = simns = 0
@@ -446,7 +451,7 @@ def check(prop, tier, seed):
     by_key = {}
     for v in violations:
         by_key.setdefault((v.get("rule"), v.get("context")), []).append(v)
-    os.makedirs(os.path.join(VERIF, "replays"), exist_ok=True)
+    os.makedirs(os.path.join(OUTDIR, "replays"), exist_ok=True)
     for (rule, context), vs in sorted(by_key.items(), key=lambda kv: str(kv[0])):
         v = min(vs, key=lambda x: (x.get("orig_tape_len", 0), x["run"]))
         k = known_match(v, known)
@@ -455,7 +460,7 @@ def check(prop, tier, seed):
             continue
         binary = binaries.get(v.get("build", "plain"), binaries["plain"])
         name = "%s-%s-%d-%d.json" % (prop, re.sub(r"[^A-Za-z0-9]+", "_", (rule or "x") + "_" + (context or ""))[:60], seed, v["run"])
-        path = os.path.join(VERIF, "replays", name)
+        path = os.path.join(OUTDIR, "replays", name)
         if v.get("scenario") is not None and v.get("build", "plain") == "plain":
             json.dump(v, open(path, "w"))
             recs, err, rc = one_shot(binary, prop, "shrink", dict(VERIF_REPLAY=path, VERIF_BUDGET="60"), timeout=180)
@@ -470,6 +475,7 @@ def check(prop, tier, seed):
                 os.unlink(path)
             continue
         json.dump(v, open(path, "w"), indent=1)
+        log("[%s] minimised %s at %.1fs" % (prop, name, time.time() - t0))
         ok, _ = replay_file(binaries, path)
         v["replay_confirmed"] = bool(ok)
         v["occurrences"] = len(vs)
